@@ -168,6 +168,25 @@ def chk_arrays(c, note):
         sc = [float(getattr(aero, f)(h)) for h in c["h"]]
         if np.shape(arr) != (len(sc),) or any(rel(float(a), b) > 1e-12 for a, b in zip(arr, sc)):
             return "%s on array %r = %r but scalars give %r" % (f, c["h"], arr, sc)
+    # integer-valued arrays of any integer dtype, and an altitude array the caller updates in place between two calls
+    Vi, Hi = np.round(V).astype(int).clip(1, 450), np.round(H).astype(int)
+    for f in ("tas2cas", "cas2tas", "tas2eas", "eas2tas", "tas2mach"):
+        ref_ = np.asarray(getattr(aero, f)(Vi.astype(float), Hi.astype(float)), dtype=float)
+        for dt in (np.int16, np.int32, np.int64, np.uint16):  # (float32 is left out: the impact-pressure formulas lose 1e-5 in single precision)
+            got = call(getattr(aero, f), Vi.astype(dt), Hi.astype(np.int32))
+            tol = 1e-12
+            if got[0] != "ok" or np.shape(got[1]) != np.shape(ref_) or not np.all(np.isfinite(got[1])) or \
+                    np.any(np.abs(np.asarray(got[1], dtype=float) - ref_) > tol * np.abs(ref_) + 1e-12):
+                return "%s on %s arrays %r, %r -> %r, on float64 arrays -> %r" % (f, dt.__name__, Vi.tolist(), Hi.tolist(), got, ref_.tolist())
+    buf = np.array(c["h"], dtype=float)
+    for f in ("pressure", "density", "temperature", "vsound"):
+        getattr(aero, f)(buf)
+        buf += 1234.5                      # same array object, new contents
+        np.clip(buf, -500, 20000, out=buf)
+        got = np.asarray(getattr(aero, f)(buf), dtype=float)
+        fresh = np.asarray(getattr(aero, f)(np.array(buf.tolist())), dtype=float)
+        if np.shape(got) != np.shape(fresh) or np.any(np.abs(got - fresh) > 1e-12 * np.abs(fresh)):
+            return "%s on an array updated in place since the previous call -> %r, on a fresh array with the same contents -> %r" % (f, got.tolist(), fresh.tolist())
     note.nt(len(c["h"]) > 1)
     return None
 
